@@ -105,17 +105,20 @@ VARIABLES include, exclude, customOptions,
           knownExt   \* known-extension retention (the default of buf build --type and of buf generate): the extensions of a
                      \* message that is kept are kept with it
 vars == <<include, exclude, customOptions, knownExt, libImport>>
-SmallSubsets(S, n) == {T \in ({{}} \cup {{a} : a \in S} \cup {{a, b} : a \in S, b \in S} \cup
+SmallSubsets(S, n) == {T \in ({{}} \cup (IF n >= 1 THEN {{a} : a \in S} ELSE {}) \cup (IF n >= 2 THEN {{a, b} : a \in S, b \in S} ELSE {}) \cup
                               (IF n >= 3 THEN {{a, b, c} : a \in S, b \in S, c \in S} ELSE {})) : Cardinality(T) <= n}
-Init == /\ include \in SmallSubsets(Names, MaxNames)
-        /\ exclude \in SmallSubsets(Names, MaxNames)
-        /\ Cardinality(include) + Cardinality(exclude) <= MaxNames
-        /\ Cardinality(include) + Cardinality(exclude) >= 1
-        /\ include \cap exclude = {}
+\* (the excluded names are chosen among the names that are not included and within what is left of the bound: TLC then
+\*  only enumerates the pairs that are filters, not the full product)
+Init == /\ \E inc \in SmallSubsets(Names, MaxNames) :
+             \E exc \in SmallSubsets(Names \ inc, MaxNames - Cardinality(inc)) :
+                /\ Cardinality(inc) + Cardinality(exc) >= 1
+                /\ include = inc /\ exclude = exc
         /\ customOptions \in BOOLEAN
         \* (retention only matters for a filter that includes something; it is combined with custom options on)
         /\ knownExt \in BOOLEAN /\ (knownExt => customOptions /\ include # {})
         \* (files as imports are explored on the filters with a single name)
+        \* (filters with three names are explored with custom options on and retention off)
+        /\ (Cardinality(include) + Cardinality(exclude) >= 3 => (customOptions /\ ~knownExt))
         /\ libImport \in BOOLEAN /\ (libImport => (customOptions /\ ~knownExt /\ Cardinality(include) + Cardinality(exclude) = 1))
 Next == UNCHANGED vars
 Spec == Init /\ [][Next]_vars
@@ -166,30 +169,32 @@ Close(S) == LET T == S \cup UNION {Needs(e) : e \in S} IN IF T = S THEN S ELSE C
 KeptStart == {e \in Roots : ~(Elem[e].kind = "method" /\ MethodDropped(e)) /\ ~(Elem[e].kind = "extension" /\ ExtDropped(e))}
 Kept == Close(KeptStart)
 \* enclosing declarations survive as shells
-Shells == (UNION {Ancestors(e) : e \in Kept}) \ Kept
+Shells == LET K == Kept IN (UNION {Ancestors(e) : e \in K}) \ K
 Survive == Kept \cup Shells
 \* self-contained: a file that keeps an element must (still) import the files of what that element needs
-NeededImports == {<<FileOf[e], FileOf[n]>> : e \in Kept, n \in E} \cap
-                 UNION {{<<FileOf[e], FileOf[n]>> : n \in {x \in Needs(e) : FileOf[x] # FileOf[e]}} : e \in Kept}
+NeededImports == LET K == Kept IN UNION {{<<FileOf[e], FileOf[n]>> : n \in {x \in Needs(e) : FileOf[x] # FileOf[e]}} : e \in K}
 SurvivingFields(m) == IF m \in Kept THEN {f[1] : f \in {g \in Fields[m] : g[2] = "" \/ g[2] \notin X}} ELSE {}
 
 \* Without included types the other elements of an import that is still used may survive as well (nothing names
 \* them, nothing excludes them); whatever survives must still link, so what they need survives with them.
-Optional == IF include = {} /\ ~Conflict THEN Close({e \in E : Import(e) /\ e \notin X /\ FileOf[e] \in {FileOf[k] : k \in Kept}}) \ Survive ELSE {}
+Optional == IF include = {} /\ ~Conflict /\ libImport
+            THEN LET K == Kept IN Close({e \in E : Import(e) /\ e \notin X /\ FileOf[e] \in {FileOf[k] : k \in K}}) \ Survive ELSE {}
 OptionalNeedsNothingExcluded == ~Conflict => Optional \cap X = {}
 
 \* ------------------------------------------------------------------ laws of the intended semantics
-Closed == ~Conflict => \A e \in Kept : Needs(e) \subseteq Kept
-NoExcluded == ~Conflict => Kept \cap X = {} /\ \A m \in Kept \cap Messages : \A f \in Fields[m] : (f[1] \in SurvivingFields(m) /\ f[2] # "") => f[2] \in Kept
-Minimal == (~Conflict /\ include # {}) => \A e \in Kept : e \in I \/ \E d \in Kept : e \in Needs(d)
-Idempotent == ~Conflict => Close(Kept) = Kept
+\* (K == Kept: the closure is computed once per law, not once per quantified element)
+Closed == ~Conflict => LET K == Kept IN \A e \in K : Needs(e) \subseteq K
+NoExcluded == ~Conflict => LET K == Kept IN
+   K \cap X = {} /\ \A m \in K \cap Messages : \A f \in Fields[m] : ((f[2] = "" \/ f[2] \notin X) /\ f[2] # "") => f[2] \in K
+Minimal == (~Conflict /\ include # {}) => LET K == Kept IN \A e \in K : e \in I \/ \E d \in K : e \in Needs(d)
+Idempotent == ~Conflict => LET K == Kept IN Close(K) = K
 \* a filter over existing names fails only on a conflict between its includes and its excludes
 NoConflictWithoutInclude == include = {} => ~Conflict
 
 \* retention never loses anything (what is kept without it is kept with it), and what it adds is extensions and
 \* what they need
 KnownExtOnlyAdds == ~Conflict => CloseBase(KeptStart) \subseteq Kept
-KnownExtIsFixpoint == (~Conflict /\ knownExt) => \A m \in Kept : KnownExtNeeds(m) \subseteq Kept
+KnownExtIsFixpoint == (~Conflict /\ knownExt) => LET K == Kept IN \A m \in K : KnownExtNeeds(m) \subseteq K
 EmitCase == Emit => PrintT(<<"CASE", ToJson([include |-> include, exclude |-> exclude, customOptions |-> customOptions, knownExt |-> knownExt,
     libImport |-> libImport, optional |-> Optional,
     conflict |-> Conflict,
